@@ -33,7 +33,8 @@ def random_menu(rng, n, ids_from=1, arrays=True, nonnumeric=True, ticks=(1, 8), 
         if nums and vs:
             num = {}
             if rng.random() < 0.85:
-                num["v"] = rng.randint(1, 4)
+                # (zero and negative values too: an accumulator that has seen a 0 is set)
+                num["v"] = rng.choice([1, 2, 3, 4, 1, 2, 3, 4, 0, 0, -1, -3])
             if rng.random() < 0.7:
                 num["u"] = rng.randint(1, 3)
             if rng.random() < 0.15:
@@ -615,7 +616,16 @@ def pipeline_part(pid, V, st):
         shutil.rmtree(work, ignore_errors=True)
 
 
-def free_part(pid, V, rng, quick, st):
+def small_memory_ratio(nbytes=3000):
+    """MaxMemoryRatio that caps the process at about nbytes (the sorter of a sorted flush gets a tenth)."""
+    try:
+        total = int(re.search(r"MemTotal:\s+(\d+) kB", open("/proc/meminfo").read()).group(1)) * 1024
+    except Exception:
+        total = 64 << 30
+    return float(nbytes) / total
+
+
+def free_part(pid, V, rng, quick, st, capped_only=False):
     """Free-running scans (C18): a child process inserts points while 1-3 ms timer flushes and
     memstore-inclusive queries run concurrently; every result must show exactly the cells of a
     prefix of the stream (the first m entries, for some m), and successive results of a table
@@ -626,20 +636,30 @@ def free_part(pid, V, rng, quick, st):
     work = common.scratch(pid + "-free")
     tables = C18_TABLES
     jobs = []
-    for di in range(6 if quick else 48):
-        menu = random_menu(rng, rng.randint(14, 22), ticks=(1, 9), arrays=False, keys=rng.choice([BASIC_KEYS, [1, 3], [7, 10, 8, 1, 2]]))
-        jobs.append((di, menu, rng.choice([0, 100, 400, 1500])))
+    # under a memory cap the sorter of a sorted flush gets a tenth of the cap: less than a row, so
+    # that every row of the table becomes a sorted run of its own and the flush is a k-way merge
+    mem_ratio = small_memory_ratio(300)
+    for di in range((6 if quick else 48) // (2 if capped_only else 1)):
+        capped = capped_only or di % 2 == 1
+        keys = rng.choice([BASIC_KEYS, [1, 3], [7, 10, 8, 1, 2]]) if not capped else rng.choice([CLUSTER_KEYS, sorted(KEYS), BASIC_KEYS])
+        menu = random_menu(rng, rng.randint(14, 22), ticks=(1, 9), arrays=False, keys=keys)
+        jobs.append((di, menu, rng.choice([0, 100, 400, 1500]), capped))
 
     def one(job):
-        di, menu, pace = job
+        di, menu, pace, capped = job
         d = os.path.join(work, "d%d" % di)
         os.makedirs(d, exist_ok=True)
         pts = []
         for x in menu:
             c = render_insert(x)
             pts.append({"id": x["id"], "ts": x["ts"], "dims": c["dims"], "vals": c["vals"]})
+        # every other directory runs under a memory cap of a few bytes: each insert forces a flush
+        # of the largest memstore, flushes are sorted in turn and the sorter spills every row
+        job_ = {"tables": [t.define() for t in tables], "points": pts, "paceUs": pace}
+        if capped:
+            job_["maxMemoryRatio"] = mem_ratio
         p = subprocess.run([zk, "-mode", "free", "-dir", os.path.join(d, "data"), "-rec", os.path.join(d, "rec.ndjson"), "-life", "f%d" % di],
-                           input=json.dumps({"tables": [t.define() for t in tables], "points": pts, "paceUs": pace}),
+                           input=json.dumps(job_),
                            stdout=subprocess.PIPE, stderr=subprocess.PIPE, text=True, timeout=300)
         evs = []
         if os.path.exists(os.path.join(d, "rec.ndjson")):
@@ -873,11 +893,26 @@ def check_C03(args):
                 opts = {"maxMemoryRatio": 0.9} if rng.random() < 0.5 else {}
                 yield scenario_from_hist("C03-%d-%d" % (mi, j), tabs, menu, h, opts=opts, subsets=rng), tabs
 
+    fst = {"dirs": 0, "results": 0, "nonempty": 0, "strict_prefixes": 0}
+
+    def post_judge(V, scenarios, traces):
+        if not args.replay:
+            # free running under a memory cap of a few hundred bytes: every insert forces a flush,
+            # flushes are sorted in turn and the sorter merges one run per row; whatever a scan
+            # returns meanwhile must be the content of a prefix of the stream
+            free_part("C03", V, random.Random(common.seed() * 13 + 3), quick_tier(), fst, capped_only=True)
+
+    def extra_cov(scenarios, traces):
+        return {"memory_capped_processes": fst["dirs"], "memory_capped_scan_results": fst["results"],
+                "memory_capped_results_of_a_strict_prefix": fst["strict_prefixes"]}
+
     return store_check(args, "C03", mc_jobs, gen, ["ExactlyOnce", "MemLockStep", "DiskLockStep"],
                        CODE_FLAGS["ArrayDup"],
                        ["flush schedules are forced flushes placed by TLC-simulated behaviours (timer-driven flushes are covered by the free-running tier)",
-                        "sorted flushes occur when MaxMemoryRatio > 0 and it is the table's turn (observed, not forced)"]
-                       + BASE_ASSUMPTIONS)
+                        "sorted flushes occur when MaxMemoryRatio > 0 and it is the table's turn (observed, not forced)",
+                        "memory-capped part: child processes under a cap of about 300 bytes (sorter budget below one row), forced sorted flushes "
+                        "with a k-way merge of one run per row, scans concurrent with the inserts"]
+                       + BASE_ASSUMPTIONS, post_judge=post_judge, extra_cov=extra_cov)
 
 
 # ---------------------------------------------------------------- C01
@@ -910,7 +945,8 @@ def agg_expected(points):
            "av": F(sum(vs), len(vs)) if vs else F(0),
            "wv": F(sum(v * u for v, u in vu), sumu) if sumu else F(0),
            "ar": F(sum(vs) + sum(us)),
-           "dv": (F(sum(vs), len(us)) if us else (F(0) if not vs else None)),
+           # (x / 0 is "very large" for x # 0; 0 / 0 is not decided by anything: skipped)
+           "dv": (F(sum(vs), len(us)) if us else (F(0) if not vs else (None if sum(vs) != 0 else "skip"))),
            "ifs": F(sum(by)), "bv": F(sum(bd), len(bd)) if bd else F(0),
            "ml": F(sum(vs) * (max(us) if us else 0))}
     return out
@@ -933,8 +969,10 @@ def c01_value_oracle(sc, t, result, n_entries):
         exp = agg_expected(pts)
         for f, e in exp.items():
             o = obs.get((key, per, f), 0.0)
+            if e == "skip":
+                continue
             if e is None:          # x / 0 with x # 0: defined as "very large"
-                if o < 1e300:
+                if abs(o) < 1e300:
                     bad.append([key, per, f, o, "max float"])
                 continue
             if abs(o - float(e)) > 1e-9 * max(1.0, abs(float(e))):
